@@ -1,12 +1,13 @@
 package main
 
 import (
+	"bytes"
 	"encoding/json"
 	"errors"
 	"fmt"
 	"io"
-	"math"
 	"io/ioutil"
+	"math"
 	"os"
 	"path/filepath"
 	"strings"
@@ -338,6 +339,31 @@ func init() {
 			obs["status"] = "err"
 			obs["err"] = errInfo(xerr)
 			obs["injected"] = xerr == errInjected
+		}
+		// the same execution once more into a *bytes.Buffer, the writer most callers pass: what the writer holds when
+		// Execute returns (with or without an error) does not depend on the writer's type
+		if c.Fault.Write == 0 && c.Fault.Load == 0 && c.Loader == "" && !c.Inline {
+			ctx2, err := buildCtx(c.Ctx)
+			if err != nil {
+				return nil, err
+			}
+			rec2 := &recorder{srcs: srcs, failedAt: -1, discardLog: true}
+			var env2 *stick.Env
+			if c.Env == "twig" {
+				env2 = twig.New(rec2)
+			} else {
+				env2 = stick.New(rec2)
+			}
+			rec2.register(env2, c.Env == "twig")
+			var buf bytes.Buffer
+			var err2 error
+			if c.Safe {
+				err2 = env2.ExecuteSafe(entry, &buf, ctx2)
+			} else {
+				err2 = env2.Execute(entry, &buf, ctx2)
+			}
+			obs["buf_out"] = Bytes(buf.Bytes())
+			obs["buf_err"] = err2 != nil
 		}
 		return obs, nil
 	}
